@@ -122,3 +122,65 @@ func (d Dir) BBad() bool { return d&(mA|mB) != 0 }
 
 var listGood = [...]rune{0x28, 0x29, 0x3c, 0x3e}
 var listBad = [...]rune{0x28, 0x29, 0x5b, 0x3e}
+
+// ---- R-TABONLY ----
+
+const unknownS = 99
+
+func lookupGood(r rune) int {
+	for i, j := 0, len(rangesGood); i < j; {
+		h := i + (j-i)/2
+		e := rangesGood[h]
+		if r < e.Start {
+			j = h
+		} else if e.End < r {
+			i = h + 1
+		} else {
+			return e.S
+		}
+	}
+	return unknownS
+}
+
+// seeded: a shortcut in front of the table
+func lookupBad(r rune) int {
+	if r < 0x80 {
+		return 1
+	}
+	for _, e := range rangesGood {
+		if e.Start <= r && r <= e.End {
+			return e.S
+		}
+	}
+	return unknownS
+}
+
+func canonGoodFn(s string) string {
+	out := make([]byte, 0, len(s))
+	for _, r := range s {
+		if r >= 0xFF {
+			continue
+		}
+		if c := canonGood[r]; c != 0 {
+			out = append(out, c)
+		}
+	}
+	return string(out)
+}
+
+// seeded: post-processing of the canonical bytes
+func canonBadFn(s string) string {
+	out := make([]byte, 0, len(s))
+	for _, r := range s {
+		if r >= 0xFF {
+			continue
+		}
+		if c := canonGood[r]; c != 0 {
+			out = append(out, c)
+		}
+	}
+	if len(out) > 0 && out[0] == '-' {
+		out = out[1:]
+	}
+	return string(out)
+}
